@@ -807,6 +807,10 @@ SEARCH_MODEL_TRUSTED = [
     "through transp.VerifBucket and heur.VerifTables + the public LookUp methods",
 ]
 
+_C10REUSE_RULE = ("ONE uci.Driver given 2..5 position commands in a row (start-position lists that are transposed / replaced / "
+                  "extended / unrelated variants of one another, `position fen X [moves ..]` for other roots in between, ucinewgame "
+                  "for some); after each command the driver's board must be the position THAT command describes (all six FEN fields "
+                  "from Spec/Chess.succ_spec); shared with C10")
 reg(Prop("C06", "Search returns a legal move unless the game is over; board left untouched",
          ["Properties/C06.v", "Properties/C06_skel.v", "Properties/C06_model.v", "Properties/C06_closed.v", "Properties/C06_model2.v"],
          [StreamCfg("c06", 20000, 150000, judge="judge_c06", model=False,
@@ -821,7 +825,8 @@ reg(Prop("C06", "Search returns a legal move unless the game is over; board left
           StreamCfg("c06arg", 4000, 100000,
                     rule="UCI driver with a recording search: go depth <text> for listed texts, every integer in -700..700, "
                          "neighbourhoods of +-2^7..2^62, random int64, digit strings up to 30 digits, garbage; model = uci_go_depth"),
-          StreamCfg("search", 160, 2000, judge="judge_search", rule=SEARCH_MODEL_RULE)],
+          StreamCfg("search", 160, 2000, judge="judge_search", rule=SEARCH_MODEL_RULE),
+          StreamCfg("c10reuse", 63, 4000, judge="judge_c06reuse", rule=_C10REUSE_RULE)],
          trusted=SEARCH_TRUSTED + SKEL_TRUSTED + SEARCH_MODEL_TRUSTED,
          assumptions=["C06_null_only_final and C06_move carry explicit hypotheses about the root call's answer (in-window answer: "
                       "its line starts with a playable root move; an empty line at depth >= 1 only on a final root); "
@@ -956,7 +961,9 @@ reg(Prop("C10", "Repetition count equals true recurrences of the position in the
                     rule="ONE uci.Driver given 2..4 `position startpos moves` commands in a row where the next list is not a "
                          "continuation of the previous one: at least as long with the SAME move at the previous list's last "
                          "index (two moves of one side transposed, or one move replaced, rest replayed), unrelated, shorter, "
-                         "honest continuations; ucinewgame / position fen in between for some; after each command all "
+                         "honest continuations; ucinewgame / position fen <startpos> in between for some; and `position fen X [moves ..]` "
+                         "for other valid roots X between start-position lists, with the patterns A; fen X; A+tail - A; fen X moves ..; A - "
+                         "fen X moves B; startpos moves B+tail - A; ucinewgame; fen X; A+tail; after each command all "
                          "attributes of the driver's board (FEN fields), Threefold, history length, Hash()==calculateHash(); "
                          "non-trivial = a transposed/replaced list follows a startpos list without reset")],
          trusted=["hooks uci/export_verif.go (VerifBoard, VerifParseUCIMove) and board/export_verif.go (snapshot/restore)",
@@ -1270,7 +1277,8 @@ reg(Prop("C02", "Playing a move produces the successor position the rules prescr
                     rule="fresh in-process uci.Driver per case: position startpos|fen F moves ... then fen; legal lines "
                          "of 0..24 (10 %: 60..140) plies, 60 % with one bad token in the middle (possible-but-illegal move, "
                          "random square pair, wrong promotion suffix, malformed, one byte mutated, alias spelling); "
-                         "non-trivial = a non-empty move list, distinct by input")],
+                         "non-trivial = a non-empty move list, distinct by input"),
+          StreamCfg("c10reuse", 63, 4000, judge="judge_c02reuse", rule=_C10REUSE_RULE)],
          trusted=["hooks board/export_verif.go (VerifSnapshot/VerifRestore: field copies) and the exported uci.NewDriver options; "
                   "harness/hx/fen.go (strict parser of the printed FEN into six integers, independent of board.FromFEN)",
                   "the position set up by `position fen F` is taken from board.FromFEN (FEN parsing is property C11)",
